@@ -634,7 +634,7 @@ def mk_slc_kind():
         return b
 
     k.bit_seeds = seeds
-    k.n_bits = (1200, 60000)
+    k.n_bits = (1200, 30000)
     return k
 
 
@@ -644,7 +644,7 @@ def mk_pi_kind():
     k = Kind("pi", 96, PIHeader.from_bits, lambda o, crc=None: f"{shex(o.data)} {o.crc}", errors=[])
     k.variants = [Variant(k, "pi", [("data", BYTES(10)), ("crc", U(16))], lambda v: PIHeader(data=bytes.fromhex(v["data"]), crc=v["crc"]))]
     k.bit_seeds = lambda rng: int2ba(rng.getrandbits(96), length=96)
-    k.n_bits = (800, 40000)
+    k.n_bits = (800, 20000)
     return k
 
 
@@ -667,7 +667,7 @@ def mk_rate_kinds():
                      dec_line=(lambda s, cname=cname, tname=tname: f"rate.dec {cname} {tname} {s}"))
             k.bit_seeds = lambda rng, total=total: (
                 (lambda b: (b.__setitem__(slice(7, 16), 0), b)[1] if rng.random() < 0.15 else b)(int2ba(rng.getrandbits(8 * total), length=8 * total)))
-            k.n_bits = (250, 12000)
+            k.n_bits = (250, 6000)
             if tname != "undefined":
                 dl = member.value
                 fields = [("data", BYTES(dl))]
@@ -732,7 +732,7 @@ def mk_udp_kind():
         return b
 
     k.bit_seeds = seeds
-    k.n_bits = (3000, 100000)
+    k.n_bits = (3000, 60000)
     return k
 
 
@@ -961,8 +961,8 @@ def run(ctx):
     # ---- per kind
     for k in ks.values():
         enc_pairs = []
-        n_random = ctx.budget(200, 3000)
-        reps = ctx.budget(2, 12)
+        n_random = ctx.budget(200, 1500)
+        reps = ctx.budget(2, 6)
         for var in k.variants:
             first = True
             for fname, spec in var.fields:
@@ -982,7 +982,7 @@ def run(ctx):
             ctx.correspond(f"{k.name}.enc", enc_pairs)
         # decode side
         dec_pairs = []
-        n_bits = (ctx.budget(*k.n_bits) if k.n_bits else ctx.budget(3000, 150000)) if k.length is None or k.length > 8 else 256
+        n_bits = (ctx.budget(*k.n_bits) if k.n_bits else ctx.budget(3000, 80000)) if k.length is None or k.length > 8 else 256
         seen = set()
         seeds = []
         if k.length == 8:
@@ -991,7 +991,7 @@ def run(ctx):
             for _ in range(n_bits):
                 seeds.append(k.bit_seeds(ctx.rng))
             # single-bit mutations of valid encodings
-            for line, bits in enc_pairs[: ctx.budget(150, 3000)]:
+            for line, bits in enc_pairs[: ctx.budget(300, 3000)]:
                 bits = bits.split(" ")[-1]
                 if bits.startswith("ERR"):
                     continue
